@@ -711,8 +711,8 @@ def _parse_schema(
                 else:
                     # For inline items, generate a synthetic name
                     base_name_for_item = schema_name or "AnonymousArray"
-                    item_schema_name_for_recursive_parse = NameSanitizer.sanitize_class_name(
-                        f"{base_name_for_item}Item"
+                    item_schema_name_for_recursive_parse = _not_a_declared_name(
+                        NameSanitizer.sanitize_class_name(f"{base_name_for_item}Item"), context
                     )
 
                     # Ensure unique names for anonymous array items to avoid schema overwrites
@@ -827,8 +827,8 @@ def _parse_schema(
                 item_schema_context_name_for_reparse = None
             else:
                 base_name_for_reparse_item = schema_name or "AnonymousArray"
-                item_schema_context_name_for_reparse = NameSanitizer.sanitize_class_name(
-                    f"{base_name_for_reparse_item}Item"
+                item_schema_context_name_for_reparse = _not_a_declared_name(
+                    NameSanitizer.sanitize_class_name(f"{base_name_for_reparse_item}Item"), context
                 )
 
                 # Ensure unique names for anonymous array items to avoid schema overwrites
